@@ -54,6 +54,10 @@ CLAIMED = {
   "allocation-after-check dominance; read-after-willRead; non-wrapping form of bound comparisons on input-derived lengths; accept-edge check of the trailing-data test; panic triage over the decode cone; census of (sentinel, operator, constant) canonical-form guards and sibling agreement of the two tag parsers; cache-key field coverage",
   "Totality and the canonical-error skeleton decided structurally: every input-sized allocation follows a successful Kind(); every read follows willRead; bound tests cannot wrap; DecodeBytes rejects trailing bytes; no unreviewed explicit panic in the decode cone; both tag parsers keep the same case boundaries and the canonical-form guards (size<56, leading zero, single byte <0x80) are all present; the codec cache is keyed by (type, tags). Round-trip equality and uniqueness of encodings for all values, and the encoder, are not decided.",
   "Trusted: reflect / io.Reader semantics; the reference guard set in rules/c08.go was recorded from the reviewed tree."),
+ "C09": ("3/C09",
+  "nil-guard analysis of protobuf field dereferences driven by the proto2 struct tags (opt/req) from go/types; inter-procedural parameter-dereference summaries; struct-field coverage of encoder/decoder pairs against the Go struct and the identifying hash",
+  "Totality on absent optional fields: every dereference of a pointer-typed field of a middleware/pb message, every access through an optional nested message, and every hand-over of one to a dereferencing function is guarded or the field is `req` (29 sites in types, core, consensus/net, network). Coverage: every field of Transaction, BlockHeader, GroupHeader, Group, Member, Block is read by its encoder and written by its decoder (4 reviewed exclusions, none hashed); *big.Int fields are rebuilt under a presence test. Value equality after a round trip is not decided.",
+  "Trusted: proto2 Unmarshal rejects absent `req` fields; generated getters are nil-safe. The fix: commits b249124 (getters in the four converters, F9) and c9cb1bf (envelope Code, F20) repaired the findings; the rule re-checks them on every run."),
 }
 
 NOT_YET = {}
